@@ -8,7 +8,9 @@ from .C06 import check_deposit
 
 EXPLANATION = """
 V1: vault deposit, withdraw and the share query each subtract the pending protocol-fee ledger from the balance they
-price with (flash_loan / after_trade compare raw balances by design). V3: a native deposit is accepted only when the
+price with (flash_loan / after_trade compare raw balances by design). V2: the balance a deposit is priced against is reduced by the deposit exactly when the
+deposit has already arrived (native asset), and by nothing for a cw20 asset whose TransferFrom executes afterwards
+(provenance evaluated per asset-kind configuration). V3: a native deposit is accepted only when the
 funds sent equal the declared amount (both orderings of a mismatch rejected) and a cw20 deposit is pulled with an
 attached TransferFrom(sender -> vault, amount). V4: the first deposit mints MINIMUM_LIQUIDITY_AMOUNT to the vault
 itself, only when total share is zero, a zero user share is rejected, and the vault sends nothing but Mint/Burn to
@@ -76,6 +78,37 @@ def run(ctx):
                 tf = decl(a) and bool(o_) and all(x.kind == "param" and tuple(x.proj) == ("sender",) for x in o_) and bool(r_) and all(
                     x.kind == "param" and tuple(x.proj) == ("contract", "address") for x in r_) and bool(sinks)
         ctx.ob("C05-V3", "%s|cw20-pulled" % DEP, tf, "cw20 deposit pulled by an attached TransferFrom(sender -> vault, amount): %s" % tf, v.where())
+    # V2: the deposit is excluded from the balance it is priced against only if it has already arrived:
+    # a native deposit is part of the balance (subtract it), a cw20 deposit is pulled later (subtract nothing)
+    if v is not None:
+        from ..dataflow import variant_excluded_edges, const_of
+        pred = lambda os_: bool(os_) and all(o.kind == "load" and tuple(o.proj) == ("asset_info",) for o in os_)
+        for kind, want in (("NativeToken", "amount"), ("Token", "zero")):
+            excl = variant_excluded_edges(v, "pool_network::asset::AssetInfo", pred, kind)
+            reach = v.reachable(0, cut_edges=excl)
+            got = set()
+            n_sub = 0
+            with v.restricted(reach):
+                for b, t in v.calls_to(r"Uint128::checked_sub$"):
+                    if b not in reach:
+                        continue
+                    a0 = v.origins_of_operand(t["args"][0], at=v.at_term(b), taint=True)
+                    if not any(o.kind == "call" and o.a.endswith("AssetInfo::query_pool") for o in a0):
+                        continue
+                    a1 = v.origins_of_operand(t["args"][1], at=v.at_term(b))
+                    if any(o.kind == "load" and o.a.endswith("COLLECTED_PROTOCOL_FEES") for o in a1):
+                        continue
+                    n_sub += 1
+                    for o in a1:
+                        if o.kind == "param" and o.a == amount and not o.proj:
+                            got.add("amount")
+                        elif (o.kind == "call" and o.a.endswith("Uint128::zero")) or (o.kind == "const" and str(o.a) == "0"):
+                            got.add("zero")
+                        else:
+                            got.add(repr(o))
+            ok = (got == {want}) if want == "amount" else (got <= {"zero"})
+            ctx.ob("C05-V2", "%s|deposit-excluded-iff-arrived|%s" % (DEP, kind), bool(excl) and ok,
+                   "%s vault: the pricing balance is reduced by %s (must be %s)" % (kind, sorted(got) or "nothing", "the deposit" if want == "amount" else "nothing / zero"), v.where())
     check_v4_min_liquidity(ctx, model, DEP, "C05-V4")
     check_no_lp_outflow(ctx, model, "vault", "C05-V4", "lp_asset")
     check_v5_rounding(ctx, model, [DEP, WD, GS], "C05-V5")
